@@ -18,10 +18,10 @@ def cPct : UInt8 := 37
 def isWordByte (b : UInt8) : Bool :=
   (97 ≤ b && b ≤ 122) || (65 ≤ b && b ≤ 90) || (48 ≤ b && b ≤ 57) || b == 95
 
-/-- character class `[a-zA-Z0-9_\$]` of `templateReplaceCaptureRE` -/
-def isRefByte (b : UInt8) : Bool := isWordByte b || b == cDollar
+/-- character class `[a-zA-Z0-9_]` of `templateReplaceCaptureRE` -/
+def isRefByte (b : UInt8) : Bool := isWordByte b
 
-/-- one match of `\$\{?([a-zA-Z0-9_\$]+)\}?` anchored at a `$` whose tail is `rest`:
+/-- one match of `\$\{?([a-zA-Z0-9_]+)\}?` anchored at a `$` whose tail is `rest`:
     (whole match text without the leading `$`, group 1, remaining input) -/
 def refMatchAt (rest : Bytes) : Option (Bytes × Bytes × Bytes) :=
   let (brace, r1) := match rest with
